@@ -236,7 +236,7 @@ func (fc *FnCtx) rangeStmt(st *State, s *ast.RangeStmt, label string) {
 			for _, f := range fc.rangeFacts(k, u.Key()) {
 				fc.assumeGlobal(boolT(f))
 			}
-			fc.assume(b, boolT(fmt.Sprintf("(and (select (select %s %s) %s) (not (select %s %s)))", dom.S, x.S, k.S, vis.S, k.S)))
+			fc.assume(b, boolT(fmt.Sprintf("(and (not (= %s 0)) (select (select %s %s) %s) (not (select %s %s)))", x.S, dom.S, x.S, k.S, vis.S, k.S)))
 			if keyObj != nil {
 				b.vars[keyObj] = k
 			}
